@@ -62,7 +62,7 @@ def cases(tier, seed):
 
 def _states(rod, Q, tier, seed):
     bases = R.base_states(rod, Q, seed)
-    gm = ("generic_rot_trans", ab.generic_vec(seed, 4, 3, 1.5), ab.generic_quat(seed, 2))
+    gm = ("generic_rot_trans", ab.generic_vec(seed, 4, 3, 1.5), ab.generic_quat(seed, 2, unit=True))  # unit: keeps unit states unit
     ht = ("halfturn_x", np.array([0.0, 1.0, 0.0]), np.array([0.0, 1.0, 0.0, 0.0]))
     qt = ("rot90z_intquat", None, np.array([1.0, 0.0, 0.0, 1.0]))
     if tier == "quick":
@@ -95,7 +95,7 @@ def check(case):
     stats = {"max_err_sys_jac": 0.0, "max_est_sys_jac": 0.0, "max_err_el_jac": 0.0, "max_est_el_jac": 0.0,
              "max_err_affine": 0.0, "max_err_nodal": 0.0, "max_err_rotation": 0.0, "max_err_M_sym_rel": 0.0,
              "max_err_Ekin_rel": 0.0, "max_gyr_power_rel": 0.0, "min_eig_M_over_trace": 1.0,
-             "n_illcond_blocks": 0, "n_blocks": 0, "n_blocks_nonzero": 0}
+             "n_illcond_blocks": 0, "n_blocks": 0, "n_blocks_nonzero": 0, "n_blocks_failed": 0, "max_err_over_thr": 0.0}
     evals = [0]
 
     def fail(site, msg, data):
@@ -115,9 +115,12 @@ def check(case):
         if v == "illcond":
             stats["n_illcond_blocks"] += 1
             return
-        stats["max_err_" + kind] = max(stats["max_err_" + kind], e)
         stats["max_est_" + kind] = max(stats["max_est_" + kind], est)
+        if v == "ok":  # measured noise of accepted blocks only
+            stats["max_err_" + kind] = max(stats["max_err_" + kind], e)
+            stats["max_err_over_thr"] = max(stats["max_err_over_thr"], e / thr)
         if v == "fail":
+            stats["n_blocks_failed"] += 1
             d = np.abs(routine - ref)
             idx = np.unravel_index(int(np.argmax(d)), d.shape)
             data = dict(ctx)
@@ -327,6 +330,12 @@ def check(case):
             stats["max_err_affine"] = max(stats["max_err_affine"], e)
             if not e <= 1e-12 * fd.scale_of(ref):
                 fail("J_P vs exact affine d v_P/due", f"max error {e:.3e}; {ctx}", dict(ctx, err=e))
+            ref = fd.affine_jac(lambda x: rod.B_Omega(t, qe, x, xi), nue, x0=np.zeros(nue))
+            evals[0] += nue + 1
+            e = fd.err(np.asarray(rod.B_J_R(t, qe, xi), float), ref)
+            stats["max_err_affine"] = max(stats["max_err_affine"], e)
+            if not e <= 1e-12 * fd.scale_of(ref):
+                fail("B_J_R vs exact affine d B_Omega/due", f"max error {e:.3e}; {ctx}", dict(ctx, err=e))
 
     return {
         "fails": list(fails.values()),
